@@ -19,7 +19,7 @@ import (
 func init() {
 	fw.Register(&fw.Check{
 		ID: "C13", Level: "model_checking",
-		Rule: "(a) ALL ordered selections of 1..2 (quick) / 1..3 (thorough) paths from {/a, /a/{id}, /a/{id}/b, /a/{id}/b/{n}, /{id}, /{id}/{n}, /b/{n}} x form {path-bearing method, URL block with the Path at URL level, URL block with the Path at method level} x every subset of each path's parameters declared by its Path directive (inline object, reference to an object type, alias chain of 2..3 references; types declared before / after the use) x schema of the declared parameters {integer / string literal, reference to an integer / string type, float literal with a type rule}: expected verdict (a prefix declared twice => rejected) and expected pathVariables of every interaction (exactly the declared segments, in path order, with the declared example value) from the reference binding; (b) faulty variants (property matching no segment, {} and repeated {name}, nested object / array property, reference to a scalar or undefined type, additionalProperties / nullable / or rules, empty object): rejected; (c) the path-parameter splitter against the reference on ALL strings of length <= 7 (quick) / 8 (thorough) over {/ { } a}; non-trivial = project with at least one declared parameter; distinct = distinct documents / strings ; E-REFCAT (see C04) over the fixtures, the pool selections and every document the generators of C04 and C19 build: pathVariables of every HTTP interaction = the {name} segments for whose prefix some Path directive of the document (after macro expansion) declares a property, in path order; a Path property matching no segment / a prefix declared twice / an empty or repeated {name} => rejected ; a tree of five paths with two branches below one parameter (/a/{id}, /a/{id}/b/{n}, /a/{id}/c/{m}, one static segment below each): ALL ordered selections of 3..4 (thorough 5) x every assignment of the declaring interaction per parameter",
+		Rule: "(a) ALL ordered selections of 1..2 (quick) / 1..3 (thorough) paths from {/a, /a/{id}, /a/{id}/b, /a/{id}/b/{n}, /{id}, /{id}/{n}, /b/{n}} x form {path-bearing method, URL block with the Path at URL level, URL block with the Path at method level} x every subset of each path's parameters declared by its Path directive (inline object, reference to an object type, alias chain of 2..3 references; types declared before / after the use) x schema of the declared parameters {integer / string literal, reference to an integer / string type, float literal with a type rule}: expected verdict (a prefix declared twice => rejected) and expected pathVariables of every interaction (exactly the declared segments, in path order, with the declared example value) from the reference binding; (b) faulty variants (property matching no segment, {} and repeated {name}, nested object / array property, reference to a scalar or undefined type, additionalProperties / nullable / or rules, empty object): rejected; (c) the path-parameter splitter against the reference on ALL strings of length <= 7 (quick) / 8 (thorough) over {/ { } a}; non-trivial = project with at least one declared parameter; distinct = distinct documents / strings ; E-REFCAT (see C04) over the fixtures, the pool selections and every document the generators of C04 and C19 build: pathVariables of every HTTP interaction = the {name} segments for whose prefix some Path directive of the document (after macro expansion) declares a property, in path order; a Path property matching no segment / a prefix declared twice / an empty or repeated {name} => rejected ; a tree of five paths with two branches below one parameter (/a/{id}, /a/{id}/b/{n}, /a/{id}/c/{m}, one static segment below each): ALL ordered selections of 3..4 (thorough 5) x every assignment of the declaring interaction per parameter ; parameter schemas with or rules (built-in before / after a user type, as names and as objects); differential: every parameter's entry in pathVariables = the entry of the same property in a probe TYPE written with the same object, usedUserTypes = the types the parameters use; rule forms naming an object / array / undefined type at every position among the alternatives => rejected",
 		Run:  runC13, QuickCap: 8 * time.Minute, ThoroughCap: 40 * time.Minute,
 	})
 }
